@@ -18,6 +18,7 @@ class Prop:
     model_scope = ""          # which parts of the code are modelled rather than verified
     budgets = {"quick": 100, "thorough": 1000}
     search_budget = {"quick": 400, "thorough": 4000}
+    recheck = {"quick": 12, "thorough": 60}       # earlier cases re-executed at the end (state leaking between calls)
 
     # ---- to override
     def gen(self, rng, i, tier):
@@ -216,6 +217,31 @@ def run(prop, tier, seed, replay=None):
                 keys.add(prop.key(c, o))
         except Exception:
             pass
+
+    # ---------------- history independence of the implementation: re-execute some earlier cases after everything else
+    # has run in this process; a different observation means state leaked between calls (module/class level caches)
+    n_re = min(prop.recheck[tier], len(cases))
+    re_idx = sorted(rng.sample(range(len(cases)), n_re)) if n_re else []
+    leaked = 0
+    for i in re_idx:
+        o2 = prop.safe_impl(cases[i])
+        try:
+            same = canon(prop.project(cases[i], o2)) == canon(prop.project(cases[i], obss[i]))
+        except Exception:
+            same = True
+        if not same:
+            leaked += 1
+            cases.append(cases[i])
+            obss.append(o2)
+            try:
+                fails = prop.oracle(cases[i], o2)
+            except Exception as e:
+                fails = [f"oracle-crash: {type(e).__name__}: {e}"]
+            if fails:
+                oracle_fail.append((len(cases) - 1, fails))
+    _hist_add(hist, "rechecked_cases", n_re)
+    if leaked:
+        _hist_add(hist, "rechecked_cases_with_different_observation", leaked)
 
     # ---------------- model
     mism, n_model = compare(prop, cases, obss)
